@@ -109,7 +109,7 @@ CHECKS = {
                      'the stress part (real goroutines, no hooks) is not reproducible from the seed'],
     ),
     'C06': dict(
-        spec=['FpVerif.Spec.C06', 'FpVerif.Spec.C06Sound'],
+        spec=['FpVerif.Spec.C06', 'FpVerif.Spec.C06Sound', 'FpVerif.Spec.C06Live'],
         harnesses=[H('future', 'oracle_future', 3000, 150000, spec_level=True)],
         level='proof',
         level_note='trusted: Lean kernel (propext/Classical.choice/Quot.sound only); model fidelity checked by correspondence (statuses of every future, '
@@ -118,8 +118,10 @@ CHECKS = {
                    'proved: single assignment and exactly-once task delivery under every event sequence, monotone three-valued Try semantics of every '
                    'derived combinator; Spec/C06Sound.lean: for EVERY schedule (construction moments, source completion order, task order) every completed '
                    'promise holds exactly what its first-order expression evaluates to over the statuses in that same state (never earlier, never different). '
-                   'Not yet proved: completeness at quiescence (a determined future IS completed once no task is runnable) and absence of failed Complete attempts; '
-                   'futures of futures (Flatten/LiftM) are outside the first-order fragment of the theorem — all three are covered by the correspondence and direct checks.',
+                   'Spec/C06Live.lean: completeness — in every reachable state with an empty task queue the status of EVERY promise equals the three-valued '
+                   'evaluation of its expression (exact_at_quiescence, built_future_exact), via a liveness invariant preserved by every event. '
+                   'Not proved: that the queue always drains (termination of callback chains), absence of failed Complete attempts on derived promises; '
+                   'futures of futures (Flatten/LiftM) are outside the first-order fragment of the theorems — covered by the correspondence and direct checks.',
         modelled='future.go (Promise cell, OnComplete, Future methods Map/FlatMap/Recover*/Or/OrFuture/Failed), future/future_op.go (Successful, Failed, '
                  'Apply/Apply2, FlatMap, Map, Map2, Zip, Zip3/LiftA3, LiftM via Flatten(Map), Compose, Method1, FlapMap, Transform, TransformWith, Sequence, '
                  'Traverse/TraverseSeq via iterator.FoldFuture). Not modelled: Await/timeouts, MonadChainN/ApplicativeFunctorN builders, inline executors.',
